@@ -427,9 +427,28 @@ def nonneg_guarded(body, loc, depth=0):
     return False
 
 
-def cone_of(facts, roots):
+FMT_TRAITS = {"new_display": "std::fmt::Display", "new_debug": "std::fmt::Debug", "new_lower_hex": "std::fmt::LowerHex",
+              "new_upper_hex": "std::fmt::UpperHex", "to_string": "std::fmt::Display"}
+
+
+def fmt_impls(facts):
+    """(trait, self type) -> body of the crate's own formatting impls"""
+    out = {}
+    for k, b in facts.bodies.items():
+        tr = b.get("impl_trait")
+        if tr and tr.startswith("std::fmt::") and b.get("impl_self") and (b["name"] or "").endswith("fmt"):
+            out.setdefault(tr, []).append((b["impl_self"], k))
+    return out
+
+
+def cone_of(facts, roots, fmt_edges=False):
+    """bodies reachable from roots through resolved calls and closures; with fmt_edges also through formatting
+    machinery: `format!("{}", x)` reaches <X as Display>::fmt through a function pointer stored in the argument, so the
+    construction of the argument (outside debug_log! expansions, whose output is not observable state) is taken as a
+    call of the crate's impl for every crate type mentioned in the argument's type"""
     seen = set()
     st = list(roots)
+    impls = fmt_impls(facts) if fmt_edges else {}
     while st:
         k = st.pop()
         if k in seen or k not in facts.bodies:
@@ -446,4 +465,13 @@ def cone_of(facts, roots):
                     st.append(n)
                 for cl in t["f"].get("closures", []):
                     st.append(cl)
+                if fmt_edges:
+                    short = n.rsplit("::", 1)[1].split("::<")[0] if "::" in n else n
+                    tr = FMT_TRAITS.get(short)
+                    if tr and ("fmt::rt::Argument" in n or short == "to_string") and \
+                            not any("debug_log" in m for m in b["spans"][t["sp"]][3]):
+                        g = " ".join(t["f"].get("gargs", [])) + " " + n
+                        for self_ty, body_k in impls.get(tr, ()):
+                            if self_ty in g:
+                                st.append(body_k)
     return seen
